@@ -89,6 +89,11 @@ fn all_kinds() -> Vec<(&'static str, Value)> {
     kinds.push(("string-constrained", json!({"type": "string", "minLength": 4})));
     kinds.push(("string-constrained", json!({"type": "string", "maxLength": 5})));
     kinds.push(("newtype-ref", json!({"$ref": "#/definitions/AuxShort"})));
+    // tagged unions are drawn more often (each tagging has its own default validation)
+    let tagged: Vec<(&str, Value)> = kinds.iter().filter(|(k, _)| matches!(*k, "enum-external" | "enum-internal" | "enum-adjacent")).cloned().collect();
+    for _ in 0..2 {
+        kinds.extend(tagged.iter().cloned());
+    }
     kinds
 }
 
@@ -121,7 +126,13 @@ pub fn gen_c06_case(g: &mut G) -> Value {
     // scalar values, built from 1-4 byte characters (byte length != scalar count)
     let resolved = if let Some(r) = s.get("$ref").and_then(|r| r.as_str()) { doc_for_inst.pointer(&r[1..]).cloned().unwrap_or(Value::Null) } else { s.clone() };
     let bounds: Vec<u64> = ["minLength", "maxLength"].iter().filter_map(|k| resolved.get(*k).and_then(|v| v.as_u64())).collect();
-    let (d, flavour) = if !bounds.is_empty() && g.chance(2, 3) {
+    let tagged_object = kind.starts_with("enum-") && valid.is_object();
+    let (d, flavour) = if tagged_object && g.chance(1, 2) {
+        // a member next to the tag (and content) that the union does not declare
+        let mut o = valid.as_object().cloned().unwrap_or_default();
+        o.insert("zz_stray".into(), json!(1));
+        (Value::Object(o), "stray-member")
+    } else if !bounds.is_empty() && g.chance(2, 3) {
         let b = *g.pick(&bounds);
         let n = *g.pick(&[b.saturating_sub(1), b, b + 1]);
         let c = *g.pick(&['a', 'é', '名', '\u{1F600}']);
